@@ -109,6 +109,7 @@ func (c *clientConn) recv() error {
 			// gracefully.
 			return fmt.Errorf("sid not found: %d", sid)
 		}
+		verifHook(vhCliBeforeDeliver, sid, 0, nil)
 
 		ch <- result{typ: typ, data: data}
 	}
@@ -176,6 +177,7 @@ func (c *clientConn) dispatchRequest(ch chan<- result, p idmarshaler) {
 		// already closed.
 		return
 	}
+	verifHook(vhCliAfterRegister, sid, 0, nil)
 
 	if err := c.conn.sendPacket(p); err != nil {
 		if ch, ok := c.getChannel(sid); ok {
